@@ -34,7 +34,7 @@ structure Cfg where
   minVersion : Int := 0
   ciphers : CipherClass := .default
   alpnSet : Bool := false
-  verifyDepthPositive : Bool := true
+  verifyDepth : Int := 4
   deriving DecidableEq, Repr
 
 /-- answers of the file system / libcrypto about the configured files (all `true` = everything loads) -/
@@ -89,7 +89,7 @@ def Env.atom (e : Env) : Atom → Bool
   | .hostIsIPv6 => e.target == .ipv6
   | .ciphersSet => e.cfg.ciphers != .default
   | .alpnSet => e.cfg.alpnSet
-  | .verifyDepthPositive => e.cfg.verifyDepthPositive
+  | .verifyDepthPositive => decide (e.cfg.verifyDepth > 0)
 
 def G.eval (e : Env) : G → Bool
   | .tt => true
@@ -147,6 +147,7 @@ structure Ctx where
   certLoaded : Bool := false
   keyLoaded : Bool := false
   anon : Bool := false            -- the cipher list offers / accepts anonymous key exchange
+  depth : Option Int := none      -- `SSL_CTX_set_verify_depth` (unset: the library default, reported as -1)
   deriving DecidableEq, Repr
 
 /-- mirrors one action of `initTls`; `none` = `return false` -/
@@ -166,6 +167,7 @@ def stepCtx (e : Env) (f : Files) (c : Ctx) (s : Step) : Option Ctx :=
     | .fail => none
     | .applyFloor => some { c with minProto := applyFloorMin c.minProto e.cfg.minVersion }
     | .setCipherList => some { c with anon := e.cfg.ciphers == .enablesAnon }
+    | .setVerifyDepth => some { c with depth := some e.cfg.verifyDepth }
     | .other _ => some c
   else some c
 
@@ -387,6 +389,10 @@ inductive Issuer | rightCA | wrongCA | self
 structure CertProps where
   issuer : Issuer
   inTime : Bool
+  /-- the identities the library's host check accepts with its DEFAULT flags (`X509_check_host`, hostflags = 0): the
+  dNSName subjectAltName entries, or — ONLY when the certificate has no dNSName SAN at all — the subject CN.  A subject CN
+  does not count as an identity once a dNSName SAN is present.  The plan never changes the host flags (read back per
+  handshake by the harness), so this is the rule `client_name` speaks about. -/
   names : List String
   possession : Bool       -- the presenter owns the private key of the certificate it shows
   deriving DecidableEq, Repr
@@ -526,7 +532,9 @@ end Ossl
 /-- the trust anchor the operator configured (as `caFile`): the CA that issued the good certificates, another CA, none -/
 inductive TrustSel | right | wrong | none
   deriving DecidableEq, Repr
-inductive CertKind | valid | selfSigned | expired | wrongName | keyMismatch
+/-- `sanOther`: right CA, in time, key owned, subject CN = the host but dNSName SAN = another host only;
+`cnOnly`: subject CN = the host and no subjectAltName at all -/
+inductive CertKind | valid | selfSigned | expired | wrongName | keyMismatch | sanOther | cnOnly
   deriving DecidableEq, Repr
 inductive CCertKind | none | valid | untrusted | expired
   deriving DecidableEq, Repr
@@ -550,6 +558,8 @@ def CertKind.props : CertKind → CertProps
   | .expired => { issuer := .rightCA, inTime := false, names := [theHost], possession := true }
   | .wrongName => { issuer := .rightCA, inTime := true, names := ["other.example"], possession := true }
   | .keyMismatch => { issuer := .rightCA, inTime := true, names := [theHost], possession := false }
+  | .sanOther => { issuer := .rightCA, inTime := true, names := ["other.example"], possession := true }
+  | .cnOnly => { issuer := .rightCA, inTime := true, names := [theHost], possession := true }
 
 def CCertKind.props : CCertKind → Option CertProps
   | .none => Option.none
